@@ -617,7 +617,11 @@ C08_MessageNamesTask ==
   (Last.e = "send" /\ Last.handed) =>
      LET base == "http://resonate.test/tasks/"
          sfx == Last.task \o "/" \o ToString(Last.counter) IN
-     /\ Has(db.tasks, Last.task) /\ db.tasks[Last.task].counter = Last.counter
+     \* (the pair is the one the cycle selected - C08_DispatchSelectionT; between the selection and the
+     \* hand-off the task may have been claimed, re-dispatched or finished: then the message is stale, which
+     \* the statement allows; as long as it is still waiting with that counter a claim with it succeeds)
+     \* so: never a counter the task has not reached (counters only grow)
+     /\ Has(db.tasks, Last.task) /\ db.tasks[Last.task].counter >= Last.counter
      /\ IF Last.type = "notify"
         THEN /\ "promise" \in DOMAIN Last.body /\ IsSome(Last.promise)
              /\ Last.body.promise.id = The(Last.promise).id
